@@ -116,6 +116,8 @@ impl<W, R, T> Runtime<W, R, T> {
         if let Some(size_limit) = self.limits.size_limit {
             if let Some(size) = f() {
                 let stat = self.stats.borrow();
+                #[cfg(xray_verif)]
+                verif_alloc_log::record('C', size, usize::from(stat.size) + size <= size_limit);
                 if usize::from(stat.size) + size > size_limit {
                     return Err(RuntimeViolation::AllocationLimitReached);
                 }
@@ -169,6 +171,8 @@ impl<W, R, T> Runtime<W, R, T> {
         if let Some(max_size) = self.limits.size_limit {
             let size = value.byte_size();
             let mut stats = self.stats.borrow_mut();
+            #[cfg(xray_verif)]
+            verif_alloc_log::record('A', usize::from(size), usize::from(stats.size + size) <= max_size);
             if usize::from(stats.size + size) > max_size {
                 // the value is never constructed, so its bytes must not stay accounted
                 return Err(RuntimeViolation::AllocationLimitReached);
@@ -188,6 +192,8 @@ impl<W, R, T> Runtime<W, R, T> {
 
     pub(crate) fn deallocate(&self, size: AllocatedMemory) {
         if !size.is_zero() {
+            #[cfg(xray_verif)]
+            verif_alloc_log::record('D', usize::from(size), true);
             self.stats.borrow_mut().size -= size
         }
     }
@@ -203,6 +209,29 @@ impl<W, R, T> Runtime<W, R, T> {
     /// verification hook (read-only): user-defined calls counted since the last reset
     pub fn verif_ud_calls(&self) -> usize {
         self.stats.borrow().ud_calls
+    }
+}
+
+/// verification hook: thread-local log of accounting events
+/// ('A' allocate, 'D' deallocate, 'C' can_allocate check; size; whether it was within the limit)
+#[cfg(xray_verif)]
+pub mod verif_alloc_log {
+    use std::cell::RefCell;
+    thread_local! {
+        static LOG: RefCell<Option<Vec<(char, usize, bool)>>> = RefCell::new(None);
+    }
+    pub fn start() {
+        LOG.with(|l| *l.borrow_mut() = Some(Vec::new()));
+    }
+    pub fn take() -> Vec<(char, usize, bool)> {
+        LOG.with(|l| l.borrow_mut().take().unwrap_or_default())
+    }
+    pub(crate) fn record(kind: char, size: usize, ok: bool) {
+        LOG.with(|l| {
+            if let Some(v) = l.borrow_mut().as_mut() {
+                v.push((kind, size, ok))
+            }
+        });
     }
 }
 
